@@ -178,6 +178,15 @@ theorem converged_implies_balance_partial (net : Net ℝ) (y : List ℝ) (tol : 
   rw [p1, p2, ← b1, ← b2]
   exact ⟨hconv _, hconv _⟩
 
+/-- non-vacuity of the network hypotheses: a two-bus case (slack, one branch with charging and an off-nominal
+tap, one load) is well formed, in band and has symmetric shunts -/
+example : ∃ r : RNet ℝ, r.WF ∧ r.Normal ∧ r.SymShunts ∧ r.lines ≠ [] ∧ r.pqs ≠ [] ∧ r.slacks ≠ [] :=
+  ⟨⟨2, [⟨1, ⟨1, 0.5, 0.1, 0.8, 1.2⟩, ⟨1, 0, 0⟩⟩], [], [⟨0, ⟨1, 0, 0, 1, 0, -1, 9, -9, 9⟩, ⟨1, 0, 0⟩, ⟨1, 0, 0⟩⟩], [],
+     [⟨0, 1, ⟨1, 0.01, 0.1, 0, 0.02, 0, 0.01, 0, 0.01, 1.05, 0.1⟩⟩], []⟩,
+    ⟨by simp, by simp, by simp, by simp, by simp⟩,
+    ⟨by simp, by simp; norm_num, by simp⟩,
+    by simp [RNet.SymShunts], by simp, by simp, by simp⟩
+
 /-! ### 3. Independence of device order, index type and device base -/
 
 /-- **`residual_perm_invariant`**: the residual array does not depend on the order in which the
@@ -272,6 +281,9 @@ theorem shunt_base_invariant (sb vb sn vn sn' vn' : ℝ) (d : ShuntP ℝ) (h1 : 
 theorem per_unit_is_physical (sb vb sn vn z : ℝ) (h1 : sb ≠ 0) (h2 : vb ≠ 0) (h3 : sn ≠ 0) :
     (z * puZ sb vb sn vn) * (vb * vb / sb) = z * (vn * vn / sn) := by
   unfold puZ; field_simp
+
+example : ∃ sb vb sn vn sn' vn' : ℝ, sb ≠ 0 ∧ vb ≠ 0 ∧ sn ≠ 0 ∧ vn ≠ 0 ∧ sn' ≠ 0 ∧ vn' ≠ 0 ∧ sn ≠ sn' ∧ vn ≠ vn' :=
+  ⟨100, 110, 50, 121, 200, 115, by norm_num⟩
 
 /-! ### 4. Set-points and slack reference -/
 
